@@ -48,8 +48,10 @@ def make(cls, beh, variant=""):
     return img
 
 
-def _call(img, op, args, exp):
+def _call(img, op, args, exp, order=None):
     import menpo.transform as mt
+
+    kw = {} if order is None else {"order": order}
 
     if op == "rescale":
         s, m = args
@@ -59,7 +61,7 @@ def _call(img, op, args, exp):
     if op == "rotate":
         r, retain, m = args
         c, s = ROT[r]
-        return img.rotate_ccw_about_centre(math.degrees(math.atan2(s, c)), retain_shape=retain, round=m, return_transform=True)
+        return img.rotate_ccw_about_centre(math.degrees(math.atan2(s, c)), retain_shape=retain, round=m, return_transform=True, **kw)
     if op == "mirror":
         return img.mirror(axis=args[0], return_transform=True)
     if op == "zoom":
@@ -105,16 +107,20 @@ def _call(img, op, args, exp):
     if op == "about":
         key, retain, m = args
         return img.transform_about_centre(mt.Affine(np.block([[np.array(ABOUTS[key]), np.zeros((2, 1))], [np.zeros((1, 2)), np.ones((1, 1))]])),
-                                          retain_shape=retain, round=m, return_transform=True)
+                                          retain_shape=retain, round=m, return_transform=True, **kw)
     S = L.mat(exp["S"])
     is_translation = np.allclose(S[:2, :2], np.eye(2))
     T = mt.Translation(S[:2, 2]) if is_translation else mt.Affine(S)
     if op == "warp":
-        return img.warp_to_shape(tuple(exp["shape"]), T, warp_landmarks=True, return_transform=True)
+        return img.warp_to_shape(tuple(exp["shape"]), T, warp_landmarks=True, return_transform=True, **kw)
     if op == "warp_order0":
         return img.warp_to_shape(tuple(exp["shape"]), T, warp_landmarks=True, order=0, return_transform=True)
     if op == "warp_mask":
-        return img.warp_to_mask(BooleanImage(np.array(exp["tmask"], dtype=bool)), T, warp_landmarks=True, return_transform=True)
+        template = BooleanImage(np.array(exp["tmask"], dtype=bool))
+        out = img.warp_to_mask(template, T, warp_landmarks=True, return_transform=True)
+        if not np.array_equal(template.mask, np.array(exp["tmask"], dtype=bool)) or template.has_landmarks:
+            raise AssertionError("warp_to_mask modified the template mask it was given")
+        return out
     raise ValueError(op)
 
 
@@ -149,6 +155,19 @@ def replay_one(cls, beh, variant=""):
             return tag + ": outcome %r, expected %r" % (err or "ok", exp.get("err") or "ok")
         if err:
             continue
+        if cls == "Image" and not variant and op in ("rotate", "about", "warp") and nch > 1:
+            # higher interpolation orders: every channel is interpolated on its own (the image alone = that channel of the stack)
+            from menpo.image import Image as _Image
+
+            for order in (2, 3):
+                full, _ = _call(img, op, args, exp, order=order)
+                one = _Image(img.pixels[1:2].copy())
+                one.landmarks["lm"] = img.landmarks["lm"]
+                alone, _ = _call(one, op, args, exp, order=order)
+                if full.pixels.shape[1:] != alone.pixels.shape[1:] or not np.allclose(full.pixels[1:2], alone.pixels, atol=1e-10):
+                    return tag + ": with interpolation order %d a channel of a multi-channel image is not what the same channel gives alone" % order
+                if not L.close(full.landmarks["lm"].points, res.landmarks["lm"].points, 1e-12):
+                    return tag + ": the interpolation order changes where the landmarks go"
         want_cls = type(img).__name__ if not (op == "warp_mask" and cls == "Image") else "MaskedImage"
         if type(res).__name__ != want_cls:
             return tag + ": result class " + type(res).__name__
@@ -250,8 +269,15 @@ def _warp_sym(cls, img, kind, tag, ctol=1e-9):
     src = np.array([[-1.0, -1.0], [-1.0, tw], [th, -1.0], [th, tw], [(th - 1) / 2.0, (tw - 1) / 2.0]])
     tgt = np.array([[-0.75, -1.0], [-1.0, W + 0.25], [H + 0.5, -0.5], [H, W], [(H - 1) / 2.0 + 0.3, (W - 1) / 2.0 - 0.4]])
     if kind == "pwa":
-        tl = np.array([[0, 1, 4], [1, 3, 4], [3, 2, 4], [2, 0, 4]])
-        T = mt.PiecewiseAffine(TriMesh(src, trilist=tl), TriMesh(tgt, trilist=tl))
+        # a quadrilateral split along the diagonal a Delaunay triangulation would NOT choose (the warp and its inverse must use the
+        # triangle list they were given)
+        from scipy.spatial import Delaunay
+
+        src = np.array([[-1.0, -1.0], [-1.0, tw], [th, -1.0], [th + 2.0, tw + 4.0]])
+        tgt = np.array([[-0.75, -1.0], [-1.0, W + 0.25], [H + 0.5, -0.5], [H + 2.5, W + 4.0]])
+        dl = {frozenset(t.tolist()) for t in Delaunay(src).simplices}
+        tl = np.array([[0, 1, 3], [0, 3, 2]]) if frozenset((0, 1, 2)) in dl else np.array([[0, 1, 2], [1, 3, 2]])
+        T = mt.PiecewiseAffine(TriMesh(src, trilist=tl), PointCloud(tgt))      # (the target carries no triangle list of its own)
     else:
         T = mt.ThinPlateSplines(PointCloud(src), PointCloud(tgt))
     keep_px, keep_lm = img.pixels.copy(), img.landmarks["lm"].points.copy()
